@@ -102,12 +102,12 @@ PROPERTIES = {
     },
     'C06': {
         'units': [ef.PadBunchProfiles, ef.WakePotential, ef.ElectricFieldScale, ef.ElectricFieldCtor, ef.ElectricFieldCtor11, ef.InitWakeLossFFT],
-        'native_sweep': {'harness': 'ef_replay', 'runs': ef.EF_RUNS + [['wake', 16, '1', 0, n_, 7] for n_ in (32, 33, 34, 50, 97, 128)]},
+        'native_sweep': {'harness': 'ef_replay', 'runs': ef.EF_RUNS + [['wake', 16, '1', 0, n_, 7] for n_ in (32, 33, 34, 50, 97, 128)] + [['fftw', 2, 64], ['fftw', 127, 129], ['fftw', 255, 257], ['fftw', 511, 513], ['fftw', 1023, 1025], ['fftw', 2048, 2048]]},
         'lemmas': [],
         'level': 'proof',
         'claim': 'both ElectricField constructors establish the class invariant the methods rely on (transform buffers of the impedance length, zero-initialised, FFT plans bound to exactly those buffers, per-bunch tables); wakePotential = scale * IDFT_herm( Z[i]*DFT(train)[i] for i < n/2, zero from n/2 ) read back at bucket*spacing + x, where the train holds every bunch profile at '
                  'bucket*spacing and zeros elsewhere; FFTW represented by its contract (uninterpreted DFT/IDFT of the buffer contents); unbounded in lengths, patterns, spacing',
-        'assumptions': [A_IDEAL, A_LIB, DROPS, 'A-FFTW-R2C: r2c writes DFT(in)[0..n/2]', 'A-FFTW-C2R: c2r returns the Hermitian inverse transform of in[0..n/2] and may overwrite in[0..n/2) only',
+        'assumptions': [A_IDEAL, A_LIB, DROPS, 'A-FFTW-R2C: r2c writes DFT(in)[0..n/2]', 'A-FFTW-C2R: c2r returns the Hermitian inverse transform of in[0..n/2] and may overwrite in[0..n/2) only (both FFTW contracts are probed natively against a naive DFT through the real fft:: wrappers in the thorough tier: ef_replay fftw)',
                         'complex multiplication kept symbolic (same products in code and spec); the scale factor Ib*dt*c/(sigma_z*dE)/N is the constructor contract (C05)'],
         'uncovered': ['padded length computed in main is proved under C17'],
         'explanation': 'functional posts with ghost indices on padBunchProfiles and wakePotential',
@@ -115,7 +115,7 @@ PROPERTIES = {
     },
     'C18': {
         'units': [ef.PadBunchProfiles, ef.WakePotential, ef.UpdateCSR, ef.ElectricFieldCtor, ef.ElectricFieldCtor11, ef.InitWakeLossFFT],
-        'native_sweep': {'harness': 'ef_replay', 'runs': ef.EF_RUNS + [['wake', 16, '11', 16, n_, 8] for n_ in (34, 38, 42, 46, 50, 54, 58, 62, 66, 70)]},
+        'native_sweep': {'harness': 'ef_replay', 'runs': ef.EF_RUNS + [['wake', 16, '11', 16, n_, 8] for n_ in (34, 38, 42, 46, 50, 54, 58, 62, 66, 70)] + [['fftw', 2, 64], ['fftw', 127, 129], ['fftw', 255, 257], ['fftw', 511, 513], ['fftw', 1023, 1025], ['fftw', 2048, 2048]]},
         'lemmas': [],
         'level': 'other',
         'claim': 'every cell a transform reads is determined by the current profile/impedance or is a never-written zero: train layout incl. zeros outside the bunch ranges, '
@@ -184,14 +184,14 @@ PROPERTIES = {
         'units': SM_KICK + SM_FP + [sm.IdentityApply, sm.KickMapApplyTo, sm.FokkerPlanckApplyTo,
                                     ps.RulerCtor, ps.SimpsonWeights, ps.UpdateXProjection, ps.UpdateYProjection, ps.Integrate, ps.Normalize, ps.Average, ps.Variance, ps.Swap, ps.MakePSFromTXTLoop, ps.PhaseSpaceCtor, ps.PhaseSpaceCtor8, ps.PhaseSpaceCtor12, ps.PhaseSpaceCopyCtor, ps.CreateFromProjections, ps.Gaus,
                                     ef.PadBunchProfiles, ef.WakePotential, ef.UpdateCSR, ef.ElectricFieldCtor, ef.ElectricFieldCtor11, ef.InitWakeLossFFT,
-                                    mainspec.MainConfig, io.HDF5FileSources, io.HDF5AppendField, io.HDF5AppendTracks] + Z_UNITS,
+                                    mainspec.MainConfig, io.HDF5FileSources, io.HDF5AppendField, io.HDF5AppendTracks, io.ReadPhaseSpace] + Z_UNITS,
         'leaves': [leaf.UpperPow2Leaf, leaf.FPApplyToLeaf, leaf.KickApplyToLeaf, leaf.PSxLeaf],
         'lemmas': [],
         'level': 'other',
         'claim': 'every array subscript, pointer range (copy_n/fill_n/inner_product/FFT buffers), float-to-integer conversion, signed overflow, unsigned index product and division in the units under contract '
                  'is proved defined under the class invariants, and main establishes the padded-buffer precondition for every bucket; unbounded in all sizes',
         'assumptions': [A_IDEAL, A_LIB, DROPS, 'libraries are memory safe when their stated preconditions hold', 'documented option domain (see MainConfig.requires and domain_after)'],
-        'uncovered': ['functions not under contract: the Gaussian start distribution inside the PhaseSpace constructor (frame-only), the HDF5 start distribution (HDF5File::readPhaseSpace), the file-opening and line-counting prologue of makePSFromTXT (its particle loop is under contract with std::istream modelled by fail/eof flags), HDF5File, ProgramOptions, RotationMap, Display',
+        'uncovered': ['functions not under contract: the Gaussian start distribution inside the PhaseSpace constructor (frame-only), the file-opening and line-counting prologue of makePSFromTXT (its particle loop is under contract with std::istream modelled by fail/eof flags), HDF5File, ProgramOptions, RotationMap, Display',
                       'uninitialised reads (tables are written before use by construction order, checked only where a unit reads what it wrote)',
                       ],
         'explanation': 'automatic safety obligations of all units',
@@ -245,7 +245,7 @@ PROPERTIES = {
         'technique': TECH,
     },
     'C10': {
-        'units': [mainloop.MainLoop, ps.UpdateXProjection, ps.UpdateYProjection, ps.Integrate, ps.Variance, ef.WakePotential, ef.UpdateCSR, ef.ElectricFieldScale, io.HDF5FileSources, io.HDF5AppendField, io.HDF5AppendTracks],
+        'units': [mainloop.MainLoop, ps.UpdateXProjection, ps.UpdateYProjection, ps.Integrate, ps.Variance, ef.WakePotential, ef.UpdateCSR, ef.ElectricFieldScale, io.HDF5FileSources, io.HDF5AppendField, io.HDF5AppendTracks, io.ReadPhaseSpace],
         'lemmas': [],
         'level': 'other',
         'claim': 'partial: every record of a multi-row dataset takes row b from row b of its source (dataset extents vs buffer layout; for /CSR/Spectrum proved on the row copy of append(ElectricField*)) and no append reads beyond its source buffer; at every output event and at exit the CSR, wake-potential and particle datasets receive as many records as the time axis; the time value of the final record is simulationstep/steps; the derived quantities appended are the ones '
